@@ -100,6 +100,37 @@ func classifyTargetAt(c *km.Ctx, v ssa.Value, filter *ssa.Function, depth int, s
 				return redirClass{false, sprintf("destination filter output, which may be one of the off-origin constants %q and is not tested against them here", filterOffOriginConsts)}
 			}
 			return redirClass{true, "destination filter output"}
+		case strings.HasPrefix(km.CalleeFull(x.Common()), "cmp.Or"):
+			// the first non-empty of its operands: each of them has to be a safe target
+			var ops []ssa.Value
+			if len(x.Common().Args) == 1 {
+				if sl, ok := km.Unwrap(x.Common().Args[0]).(*ssa.Slice); ok {
+					if al, ok := sl.X.(*ssa.Alloc); ok {
+						for _, ref := range *al.Referrers() {
+							if ia, ok := ref.(*ssa.IndexAddr); ok {
+								for _, r2 := range *ia.Referrers() {
+									if st, ok := r2.(*ssa.Store); ok && st.Addr == ssa.Value(ia) {
+										ops = append(ops, st.Val)
+									}
+								}
+							}
+						}
+					}
+				}
+			}
+			if len(ops) == 0 {
+				return redirClass{false, "cmp.Or over operands that could not be read"}
+			}
+			all := true
+			var descs []string
+			for _, o := range ops {
+				rc := classifyTargetAt(c, o, filter, depth+1, st)
+				descs = append(descs, rc.desc)
+				if !rc.ok {
+					all = false
+				}
+			}
+			return redirClass{all, "first non-empty of {" + strings.Join(descs, "; ") + "}"}
 		case km.CalleeFull(x.Common()) == "fmt.Sprintf":
 			if f, ok := km.ConstString(x.Common().Args[0]); ok {
 				prefix := f
@@ -562,6 +593,15 @@ func derivesFromFormValue(v ssa.Value, key string, depth int) bool {
 	v = km.Unwrap(v)
 	cl, ok := v.(*ssa.Call)
 	if !ok {
+		return false
+	}
+	// the request seen through a narrow interface (a seam for tests): the same accessors, by name
+	if cc := cl.Common(); cc.IsInvoke() && len(cc.Args) == 1 {
+		switch cc.Method.Name() {
+		case "FormValue", "PostFormValue", "Get":
+			k, isK := km.ConstString(cc.Args[0])
+			return isK && k == key
+		}
 		return false
 	}
 	switch km.CalleeFull(cl.Common()) {
